@@ -26,7 +26,7 @@ def oracle(case, out):
     for l, o in zip(case, out):
         t = l.split(); r = o.split()[0]
         if t[1] == "cmp":
-            flags, loc = t[2].replace("-", ""), ("" if t[3] == "-" else t[3])
+            flags, loc = t[2].replace("-", ""), ("" if t[3] in ("-", "null") else t[3])
             a, b = dec(t[4]), dec(t[5])
             got = int(r)
             want = ref_compare(a, b, flags, loc)
@@ -35,7 +35,7 @@ def oracle(case, out):
                 return "compare(%s, %s, flags=%r, locale=%r) = %d, %s gives %d" % (t[4], t[5], flags, loc, got, what, want)
             res[(t[4], t[5], flags, loc)] = got
         elif t[1] == "sort":
-            flags, loc = t[2].replace("-", ""), ("" if t[3] == "-" else t[3])
+            flags, loc = t[2].replace("-", ""), ("" if t[3] in ("-", "null") else t[3])
             if "perm-bad" in o:
                 return "sort(%s): the result is not a permutation of the same string objects" % l
             ins = sorted(t[4:])
@@ -92,7 +92,7 @@ def gen(ctx):
     flagsets = ["-", "f", "r", "fr", "c", "cr", "fc", "fcr"]
     for _ in range(2500 if quick else 80000):
         a = rs(r.randrange(0, 7)); b = variant(a); c = variant(b)
-        loc = r.choice(["-", "-", "en", "tr", "az"])
+        loc = r.choice(["-", "-", "en", "tr", "az", "null"])      # "null": a NULL locale code, documented as the global locale
         fl = r.choice(flagsets)
         if "c" in fl: loc = r.choice(["-", "-", "tr", "xx_XX"])     # no such locale is installed: collation falls back to the global C.UTF-8
         if "c" not in fl:
@@ -102,9 +102,9 @@ def gen(ctx):
         cases.append(lines)
     for _ in range(800 if quick else 30000):
         n = r.choice([0, 1, 2, 3, 5, 8, 20, 60])
-        loc = r.choice(["-", "-", "tr"])
+        loc = r.choice(["-", "-", "tr", "null"])
         fl = r.choice(flagsets)
-        if "c" in fl: loc = r.choice(["-", "-", "tr", "xx_XX"])
+        if "c" in fl: loc = r.choice(["-", "-", "tr", "xx_XX", "null"])
         base = [rs(r.randrange(0, 5)) for _ in range(max(1, n // 2))]
         if "c" not in fl:
             # strings that agree up to an embedded U+0000 and differ behind it
